@@ -251,6 +251,9 @@ func c10(e *Env) {
 			if v.Name == "v2" {
 				e.decodeSkeleton(l, false)
 			}
+			// "X when undefined": a metric the vector does not write is spelled X only if the constructor starts it
+			// as Not Defined
+			e.constructorDefaults(l, "constructor-default")
 		}
 		e.namesReaders(v, ls)
 		// what Encode prints must still be what the decoder stored: no other writer of the fields
@@ -259,7 +262,7 @@ func c10(e *Env) {
 	e.versionTables()
 	c.Floor("canonical-order", 3)
 	c.Floor("write-ownership", 36)
-	e.keepRules("write-ownership", "names-readers", "encode-order", "encode-emission", "encode-guard", "encode-emissions", "encode-error", "encode-nil", "string-is-encode", "code-table", "parse", "canonical-order", "version-table")
+	e.keepRules("write-ownership", "names-readers", "encode-order", "encode-emission", "encode-guard", "encode-emissions", "encode-error", "encode-nil", "string-is-encode", "code-table", "parse", "canonical-order", "version-table", "constructor-default")
 	c.Floor("encode-order", 6)
 	c.Floor("encode-emission", 36)
 	c.Floor("encode-guard", 36)
